@@ -108,7 +108,7 @@ def brute_mindist(matrix, fa, fb, rng=2):
     return np.sqrt((c ** 2).sum(-1)).min(-1)
 
 
-def make_transitions(states, inner_states=None, n_sites=None, labels=None, seed=0):
+def make_transitions(states, inner_states=None, n_sites=None, labels=None, seed=0, sheared=False):
     """Wrap state histories into a real gemdat.Transitions via its public constructor (real event builder)."""
     from pymatgen.core import Element, Lattice, Structure
 
@@ -119,8 +119,14 @@ def make_transitions(states, inner_states=None, n_sites=None, labels=None, seed=
     T, N = states.shape
     n_sites = n_sites or int(max(states.max(), 0) + 1)
     labels = labels or [f'S{k % 2}' for k in range(n_sites)]
-    lat = Lattice.cubic(3.0 * n_sites)
-    pos = np.array([[(k + 0.5) / n_sites, 0.5, 0.5] for k in range(n_sites)])
+    if sheared:
+        # strongly sheared cell: the minimum image of a site pair is not the component-wise nearest one
+        lat = Lattice([[4.0, 0.0, 0.0], [3.6, 1.9, 0.0], [0.4, 3.1, 2.2]])
+        prng = np.random.default_rng(seed + 5)
+        pos = prng.random((n_sites, 3))
+    else:
+        lat = Lattice.cubic(3.0 * n_sites)
+        pos = np.array([[(k + 0.5) / n_sites, 0.5, 0.5] for k in range(n_sites)])
     sites = Structure(lat, ['Li'] * n_sites, pos, labels=labels)
     coords = np.zeros((T, N, 3))
     rng = np.random.default_rng(seed + 17)
